@@ -27,7 +27,7 @@ Inductive ccase :=
 | CM4 (sz max : Z) (a : tmreq) (b : option tmreq) (obs : option (list tout4))
 | CSov (samples : list (Z * Z))                              (* (n, BytesSizer.DeltaSize n) *)
 | CCfg (flush_timeout min_size max_size : Z) (valid : bool)  (* BatchConfig.Validate() == nil *)
-| CBat (min_size max_size : Z) (evs : list tbev)
+| CBat (min_size max_size slack : Z) (evs : list tbev)
        (batches : list (list Z))                             (* exported batches in start order: ids *)
        (fired : list (Z * Z)).                               (* OnDone calls: (request index, error? 1/0) in order *)
 
@@ -82,20 +82,28 @@ Definition out4_eqb (x y : tout4) : bool :=
    fail.  Requests are (ids, foreign). *)
 Definition lreq := (list Z * bool)%type.
 
-Fixpoint chunks (fuel : nat) (max : nat) (l : list Z) : list (list Z) :=
+(* slack 0: chunks of exactly max ids; slack s > 0: a chunk that starts with id x holds max - (x mod (s+1)) ids, at
+   least 1 (results that are not filled up to max, like byte-based splitting); the FIRST chunk holds at least
+   [keep] ids: everything the receiver of a merge already held (the real extraction is a greedy prefix) *)
+Fixpoint chunks (fuel : nat) (slack max keep : Z) (l : list Z) : list (list Z) :=
   match fuel with
   | O => [l]
-  | S f => if (max <? length l)%nat then firstn max l :: chunks f max (skipn max l) else [l]
+  | S f =>
+    if (max <? Z.of_nat (length l)) then
+      let c := Z.to_nat (Z.max keep (Z.max 1 (max - (hd 0 l) mod (slack + 1)))) in
+      firstn c l :: chunks f slack max 0 (skipn c l)
+    else [l]
   end.
 
-Definition lsplit (max : Z) (a : lreq) (b : option lreq) : option (list lreq) :=
+Definition lsplit (slack max : Z) (a : lreq) (b : option lreq) : option (list lreq) :=
   match b with
   | Some (_, true) => None
   | _ =>
     if snd a then None else
     let l := fst a ++ match b with Some (x, _) => x | None => [] end in
+    let keep := match b with Some _ => Z.min (Z.of_nat (length (fst a))) max | None => 0 end in
     if max =? 0 then Some [(l, false)]
-    else Some (map (fun c => (c, false)) (chunks (length l) (Z.to_nat max) l))
+    else Some (map (fun c => (c, false)) (chunks (length l) slack max keep l))
   end.
 
 Definition lsizeof (r : lreq) : Z := Z.of_nat (length (fst r)).
@@ -108,19 +116,19 @@ Definition bev_of (t : tbev) : @bevent lreq :=
   else EShutdown.
 
 (* batches in the order their export was started: replay the events and collect every start *)
-Fixpoint brun_log (min max : Z) (es : list tbev) (sn : @bstate lreq * nat) (started : list (list Z))
+Fixpoint brun_log (slack min max : Z) (es : list tbev) (sn : @bstate lreq * nat) (started : list (list Z))
   : @bstate lreq * list (list Z) :=
   match es with
   | [] => (fst sn, started)
   | e :: es' =>
-    let sn' := bstep (lsplit max) lsizeof min sn (bev_of e) in
+    let sn' := bstep (lsplit slack max) lsizeof min sn (bev_of e) in
     let before := b_nbatch (fst sn) in
     let newly := filter (fun x => (before <=? fst (fst x))%nat) (b_flying (fst sn')) in
-    brun_log min max es' sn' (started ++ map (fun x => fst (snd (fst x))) newly)
+    brun_log slack min max es' sn' (started ++ map (fun x => fst (snd (fst x))) newly)
   end.
 
-Definition model_bat (min max : Z) (evs : list tbev) : list (list Z) * list (Z * Z) :=
-  let '(st, started) := brun_log min max evs (b_init, O) [] in
+Definition model_bat (slack min max : Z) (evs : list tbev) : list (list Z) * list (Z * Z) :=
+  let '(st, started) := brun_log slack min max evs (b_init, O) [] in
   (started, map (fun p : nat * bool => (Z.of_nat (fst p), if snd p then 1 else 0)) (b_fired st)).
 
 Definition pz_eqb (a b : Z * Z) : bool := Z.eqb (fst a) (fst b) && Z.eqb (snd a) (snd b).
@@ -132,8 +140,8 @@ Definition check_case (c : ccase) : bool :=
   | CM4 sz max a b obs => option_eqb (list_eqb out4_eqb) (model_m4 sz max a b) obs
   | CSov l => forallb (fun p => Z.eqb (delta Bytes (fst p)) (snd p)) l
   | CCfg ft mn mx ok => Bool.eqb (batch_cfg_valid ft mn mx) ok
-  | CBat mn mx evs bs fired =>
-    let '(mb, mf) := model_bat mn mx evs in
+  | CBat mn mx sl evs bs fired =>
+    let '(mb, mf) := model_bat sl mn mx evs in
     list_eqb lz_eqb mb bs && list_eqb pz_eqb mf fired
   end.
 
@@ -148,5 +156,5 @@ Definition model_out (c : ccase) : cout :=
   | CM4 sz max a b _ => OM4 (model_m4 sz max a b)
   | CSov l => OSov (map (fun p => (fst p, delta Bytes (fst p))) l)
   | CCfg ft mn mx _ => OCfg (batch_cfg_valid ft mn mx)
-  | CBat mn mx evs _ _ => OBat (model_bat mn mx evs)
+  | CBat mn mx sl evs _ _ => OBat (model_bat sl mn mx evs)
   end.
